@@ -14,7 +14,7 @@ loads the composed document (real files, real packages) and the expansion
 objects must equal the specification's, and every text of the schema's
 vocabulary (all single lines, random texts up to 7 lines) must give the same
 outcome - value tree or rejection - against both.
-Finally the eight composed worlds themselves are given to the loader
+Finally the nine composed worlds themselves are given to the loader
 specification (ZLoad, as in C01/C02): TLC feeds every text over each world's
 vocabulary up to the line bound and every behaviour is replayed on the
 composed schema (accept / reject and value tree) - the schema-language and the
@@ -177,6 +177,21 @@ def worlds():
         N("multisection", {"type": "top", "name": "*", "attribute": "tops"}),
         N("section", {"type": "mid", "name": "*", "attribute": "amid"})])
     out.append(("main.xml", {"main.xml": main}, {}))
+    # 9 one component reached with and without its file name spelled out (component.xml is what an import without
+    #   a file attribute means), from the schema and from another component
+    main = N("schema", {}, [
+        N("import", {"package": "zcvsd_e"}),
+        N("import", {"package": "zcvsd_e", "file": "component.xml"}),
+        N("import", {"package": "zcvsd_a"}),
+        N("import", {"package": "zcvsd_e"}),
+        N("sectiontype", {"name": "own", "extends": "pe1"}, [N("key", {"name": "ko"})]),
+        N("multisection", {"type": "own", "name": "*", "attribute": "owns"}),
+        N("section", {"type": "pa9", "name": "*", "attribute": "nine"})])
+    ca9 = N("component", {}, [
+        N("import", {"package": "zcvsd_e", "file": "component.xml"}),
+        N("import", {"package": "zcvsd_e"}),
+        N("sectiontype", {"name": "pa9", "extends": "pe1"}, [N("key", {"name": "ka"})])])
+    out.append(("main.xml", {"main.xml": main}, {("zcvsd_a", "component.xml"): ca9}))
     return out
 
 
@@ -376,7 +391,7 @@ def run(chk):
     quick = chk.tier == "quick"
     items = scenarios(chk.seed, quick)
     N_RANDOM["n"] = 40 if quick else 200
-    chk.rule = ("eight composed worlds (extends chain of 3 with two key-type overrides and '+' defaults; absolute and "
+    chk.rule = ("nine composed worlds (extends chain of 3 with two key-type overrides and '+' defaults; absolute and "
                 "relative prefixes at two levels; three base schemas one of which has its own base; diamond-shaped "
                 "component imports with repeated imports; import/@src with a relative package name; base schemas "
                 "importing one component along two paths), every single generic edit of each of their documents "
